@@ -336,6 +336,14 @@ def _enumerate(idx, rep, rule, f, U, colliders, tspec, specialised, tcore, tag):
         rep.error("R-INFL: %d pair/side set-ups could not be evaluated in %s" % (n_unknown, f.key))
 
 
+def _pm_parent(root, node):
+    for p_ in ast.walk(root):
+        for c_ in ast.iter_child_nodes(p_):
+            if c_ is node:
+                return p_
+    return None
+
+
 def r_dispatch(idx, rep, rule="R-DISPATCH"):
     rep.rule(rule, "primitives variant: type code k written for a shape is dispatched to that shape's support, and the data slots "
                    "written (axial half extent, radius, half sizes, squared radii) are the slots the support reads", floor=10)
@@ -422,6 +430,10 @@ def r_dispatch(idx, rep, rule="R-DISPATCH"):
             for j, (attrs, e2) in slots.items():
                 for a in attrs & set(want_roles):
                     got = flows.get(j, set())
+                    if not flows:
+                        # no per-slot flow could be read off at all (vectorised / restructured support): not a statement about the roles
+                        rep.unknown(rule, key + " slot %s (%s)" % (j, a), callee.where, "%s does not store its result slot by slot: the role of data[%s] is not derivable" % (callee_name, j))
+                        continue
                     rep.check(got == {want_roles[a]}, rule, key + " slot %s (%s)" % (j, a), callee.where,
                               "data[%s] carries the %s of the %s but %s uses it as %s extent" % (j, a, T, callee_name, sorted(got) or "nothing"),
                               "%s -> %s" % (a, want_roles[a]))
@@ -430,6 +442,14 @@ def r_dispatch(idx, rep, rule="R-DISPATCH"):
                                   "the axial slot must hold HALF the %s; it holds `%s`" % (a, u(e2)))
         elif T == "Box":
             attrs, e2 = slots.get("*", (set(), None))
+            if not flows and "size" in attrs and e2 is not None and ("/ 2" in u(e2) or "0.5" in u(e2)):
+                # vectorised support (np.where(dir > 0, e, -e) on the whole data vector): element-wise by construction, no per-axis store to read
+                whole = any(isinstance(n_, ast.Name) and n_.id == dpar and not isinstance(_pm_parent(callee.node, n_), ast.Subscript) for n_ in ast.walk(callee.node) if isinstance(n_, ast.Name))
+                if whole:
+                    rep.ok(rule, key + " half sizes per axis", callee.where, "element-wise on the whole data vector")
+                else:
+                    rep.unknown(rule, key + " half sizes per axis", callee.where, "box_support neither stores per axis nor uses the data vector element-wise")
+                continue
             rep.check("size" in attrs and e2 is not None and ("/ 2" in u(e2) or "0.5" in u(e2)) and flows.get("i") == {"per-axis"}, rule, key + " half sizes per axis", callee.where,
                       "box data must be size / 2 and box_support must use data[i] on axis i (data = `%s`, flows %s)" % (u(e2) if e2 is not None else None, flows))
         elif T == "Ellipsoid":
@@ -480,7 +500,33 @@ def r_dtree(idx, rep, rule="R-DTREE"):
         key = "%s|%s" % (n, "tree")
         if ta == tb and la == lb:
             rep.ok(rule, key, a.where, "%d nodes, %d local definitions" % (_count(ta), len(la)))
-        else:
+            continue
+        # the trees differ as syntax: decide whether they differ as PROCEDURES — same returned terms for every assignment of signs to the compared
+        # quantities (rules/sibeq.py); only outside that fragment is the syntactic difference itself the verdict
+        from . import sibeq
+        import copy as _copy
+        fa_, fb_ = _copy.deepcopy(a.node), _copy.deepcopy(b.node)
+        fa_.body, fb_.body = strip_docstring(fa_.body), strip_docstring(fb_.body)
+        try:
+            # private helpers that only these functions call (t_b ...) are evaluated through; the leaf functions that are compared in their own right stay calls
+            def helpers(m_):
+                out_ = {}
+                for g_ in m_.functions.values():
+                    if g_.cls is None and g_.name not in names and "<locals>" not in g_.qualname and isinstance(g_.node, ast.FunctionDef):
+                        h_ = _copy.deepcopy(g_.node)
+                        h_.body = strip_docstring(h_.body)
+                        out_[g_.name] = h_
+                return out_
+            verdict_, detail_ = sibeq.compare(fa_, fb_, funcs_a=helpers(a.module), funcs_b=helpers(b.module))
+        except sibeq.Unsupported as ex_:
+            verdict_, detail_ = None, str(ex_)
+        if verdict_ == "same":
+            rep.ok(rule, key, a.where, "written differently, same procedure: " + detail_)
+            continue
+        if verdict_ == "different":
+            rep.bad(rule, key, a.where, "%s is a different procedure in %s and %s: %s" % (n, a.module.relpath, b.module.relpath, detail_))
+            continue
+        if True:
             diff = _first_diff(ta, tb) or "local definitions differ: %s" % sorted(k for k in set(la) | set(lb) if la.get(k) != lb.get(k))
             rep.bad(rule, key, a.where, "%s differs between %s and %s: %s" % (n, a.module.relpath, b.module.relpath, diff))
 
